@@ -135,6 +135,195 @@ func c47(r *core.Report, p *core.Prog, thorough bool) {
 		r.Unresolved("C47.verify-result", "Client.Verify")
 	}
 	c47ClientID(r, p)
+	c47KeyCoherence(r, p)
+}
+
+// c47KeyCoherence: PublicKey, PublicKeyBytes/ID and SigScheme of a Client change together.
+func c47KeyCoherence(r *core.Report, p *core.Prog) {
+	r.Rule("C47.key-coherence", "a store to Client.PublicKey is followed on every success path by the recomputation of PublicKeyBytes and ID from it; PublicKeyBytes is stored only together with ID = Hash of the same bytes; SigScheme is stored only with a scheme keyed by this client's PublicKey (scheme.SetPublicKey(c.PublicKey) succeeded, or PublicKey was taken from scheme.GetPublicKey())")
+	hash := p.Func(pkgEnc + ".Hash")
+	isClientField := func(st *ssa.Store, name string) (ssa.Value, bool) {
+		fa, ok := st.Addr.(*ssa.FieldAddr)
+		if !ok || core.FieldOf(fa) == nil || core.FieldOf(fa).Name() != name {
+			return nil, false
+		}
+		if !strings.HasSuffix(core.NamedName(fa.X.Type()), "client.Client") {
+			return nil, false
+		}
+		return fa.X, true
+	}
+	// functions that recompute bytes and id of their receiver from its PublicKey
+	recompute := map[*ssa.Function]bool{}
+	for _, fn := range p.FuncsIn(pkgClient) {
+		if fn.Blocks == nil || fn.Signature.Recv() == nil {
+			continue
+		}
+		var bytesV ssa.Value
+		var bytesSt *ssa.Store
+		var keyStored []ssa.Value
+		idOK := false
+		for _, b := range fn.Blocks {
+			for _, in := range b.Instrs {
+				st, ok := in.(*ssa.Store)
+				if !ok {
+					continue
+				}
+				if obj, ok := isClientField(st, "PublicKeyBytes"); ok && obj == ssa.Value(fn.Params[0]) {
+					bytesV, bytesSt = st.Val, st
+				}
+				if obj, ok := isClientField(st, "PublicKey"); ok && obj == ssa.Value(fn.Params[0]) {
+					keyStored = append(keyStored, st.Val)
+				}
+			}
+		}
+		if bytesV == nil {
+			continue
+		}
+		// ID = Hash(bytes) on every success path after the bytes are stored
+		isIDStore := func(x ssa.Instruction) bool {
+			st, ok := x.(*ssa.Store)
+			if !ok {
+				return false
+			}
+			fa, ok := st.Addr.(*ssa.FieldAddr)
+			if !ok || core.FieldOf(fa) == nil || core.FieldOf(fa).Name() != "ID" {
+				return false
+			}
+			if c, ok := st.Val.(*ssa.Call); ok && c.Common().StaticCallee() == hash {
+				if mi, ok := c.Call.Args[0].(*ssa.MakeInterface); ok && mi.X == bytesV {
+					return true
+				}
+			}
+			return false
+		}
+		idOK = true
+		nExit := 0
+		for _, ret := range core.SuccessExits(fn) {
+			if ret.Block() == fn.Recover || !core.Reaches(bytesSt, ret) {
+				continue
+			}
+			nExit++
+			// the ID store may precede or follow the bytes store: search from the entry
+			_, _, found := core.PathQuery{Fn: fn, Barrier: isIDStore, EdgeOK: core.FeasibleEdge,
+				Target: func(x ssa.Instruction) bool { return x == ssa.Instruction(ret) }}.Find()
+			if found {
+				idOK = false
+			}
+		}
+		idOK = idOK && nExit > 0
+		fs, leaves := FlowLoadsDeep(bytesV)
+		fromKey := false
+		for k := range fs {
+			if strings.HasSuffix(k, ".PublicKey") {
+				fromKey = true
+			}
+		}
+		for _, l := range leaves {
+			for _, kv := range keyStored {
+				if l == kv {
+					fromKey = true
+				}
+			}
+		}
+		if idOK && fromKey {
+			recompute[fn] = true
+		}
+	}
+	r.Floor("C47.key-coherence", "functions recomputing PublicKeyBytes and ID from PublicKey", len(recompute), 1)
+	n := 0
+	for _, fn := range p.FuncsIn(pkgClient) {
+		if fn.Blocks == nil || strings.Contains(p.Pos(fn.Pos()), "_gen.go") {
+			continue
+		}
+		for _, b := range fn.Blocks {
+			for _, in := range b.Instrs {
+				st, ok := in.(*ssa.Store)
+				if !ok {
+					continue
+				}
+				if obj, ok := isClientField(st, "PublicKeyBytes"); ok {
+					n++
+					_ = obj
+					r.Check(recompute[fn], "C47.key-coherence", fmt.Sprintf("%s:stores-PublicKeyBytes", fn.String()), p.Pos(st.Pos()), "the decoded key bytes are stored only by the function that derives them from PublicKey and sets ID = Hash(bytes)")
+				}
+				if obj, ok := isClientField(st, "PublicKey"); ok {
+					n++
+					isRe := func(x ssa.Instruction) bool {
+						c, ok := x.(*ssa.Call)
+						if !ok {
+							return false
+						}
+						cal := c.Common().StaticCallee()
+						if cal == nil || len(c.Call.Args) == 0 || c.Call.Args[0] != obj {
+							return false
+						}
+						if recompute[cal] {
+							return true
+						}
+						// a callee that itself stores PublicKey and recomputes (SetPublicKey)
+						for _, c2 := range StaticClosure([]*ssa.Function{cal}, func(f *ssa.Function) bool { return f.Pkg == nil || f.Pkg.Pkg.Path() != pkgClient }) {
+							if recompute[c2] {
+								return true
+							}
+						}
+						return false
+					}
+					bad := ""
+					for _, ret := range core.SuccessExits(fn) {
+						if ret.Block() == fn.Recover || !core.Reaches(st, ret) {
+							continue
+						}
+						path, _, found := core.PathQuery{Fn: fn, Start: st, Barrier: isRe, EdgeOK: core.FeasibleEdge,
+							Target: func(x ssa.Instruction) bool { return x == ssa.Instruction(ret) }}.Find()
+						if found {
+							bad = p.PathString(path)
+						}
+					}
+					if recompute[fn] {
+						bad = ""
+					}
+					r.Check(bad == "", "C47.key-coherence", fmt.Sprintf("%s:stores-PublicKey@b%d", fn.String(), st.Block().Index), p.Pos(st.Pos()), "PublicKeyBytes and ID are recomputed after the key changes, on every success path "+bad)
+				}
+				if obj, ok := isClientField(st, "SigScheme"); ok {
+					n++
+					S := st.Val
+					keyed := false
+					// (a) S.SetPublicKey(c.PublicKey) succeeded before
+					for _, b2 := range fn.Blocks {
+						for _, in2 := range b2.Instrs {
+							c, ok := in2.(*ssa.Call)
+							if !ok || !c.Common().IsInvoke() || c.Common().Method.Name() != "SetPublicKey" || c.Common().Value != S {
+								continue
+							}
+							f, rv := loadOfAnyField(c.Call.Args[0])
+							if f == nil || f.Name() != "PublicKey" || rv != obj {
+								continue
+							}
+							if c.Block().Dominates(st.Block()) && core.ErrLeadsToFailure(c) {
+								keyed = true
+							}
+						}
+					}
+					// (b) c.PublicKey = S.GetPublicKey() earlier
+					for _, b2 := range fn.Blocks {
+						for _, in2 := range b2.Instrs {
+							s2, ok := in2.(*ssa.Store)
+							if !ok {
+								continue
+							}
+							if o2, ok := isClientField(s2, "PublicKey"); ok && o2 == obj {
+								if c, ok := s2.Val.(*ssa.Call); ok && c.Common().IsInvoke() && c.Common().Method.Name() == "GetPublicKey" && c.Common().Value == S && Before(s2, st) {
+									keyed = true
+								}
+							}
+						}
+					}
+					r.Check(keyed, "C47.key-coherence", fmt.Sprintf("%s:stores-SigScheme", fn.String()), p.Pos(st.Pos()), "the scheme installed verifies under this client's PublicKey")
+				}
+			}
+		}
+	}
+	r.Floor("C47.key-coherence", "stores to PublicKey / PublicKeyBytes / SigScheme", n, 5)
 }
 
 func isNilConstVal(v ssa.Value) bool {
